@@ -40,8 +40,12 @@ try:
         for p in props:
             t0 = time.time()
             env = dict(os.environ, XYZ_REPO=wt)
+            # evidence_backup: the evidence file describes the unchanged tree; a run on a changed tree must not replace it
+            evf = os.path.join(a.verif, 'evidence', p + '.json')
+            keep = open(evf).read() if os.path.exists(evf) else None
             r = subprocess.run([os.path.join(a.verif, 'check'), p, '--tier', 'quick'], cwd=a.verif, env=env,
                                capture_output=True, text=True, timeout=3000)
+            if keep is not None: open(evf, 'w').write(keep)
             lines = [l for l in r.stdout.split('\n') if l.strip() and not l.startswith('KNOWN-FINDING')]
             res['checks'][p] = {'rc': r.returncode, 'wall_s': round(time.time() - t0, 1),
                                 'out': '\n'.join(lines[-4:])[:700]}
